@@ -37,7 +37,7 @@ import (
 func init() {
 	register(&Prop{
 		ID:         "C21",
-		Rule:       "random quote / quasiquote templates (all statement and expression forms of the C20 generator) with ~unquote of node, literal and non-AST values and ~unquote_splice of empty / one-element / longer lists in statement lists, call arguments, composite literals, return values, case lists; nesting depth 1..3 with the innermost-unquote-pairs-with-outermost-quasiquote forms; through the fast and the classic interpreter; non-trivial = template with at least one unquote",
+		Rule:       "random quote / quasiquote templates (all statement and expression forms of the C20 generator) with ~unquote of node, literal and non-AST values and ~unquote_splice of empty / one-element / longer lists in statement lists, call arguments, composite literals, return values, case lists; nesting depth 1..4 with the innermost-unquote-pairs-with-outermost-quasiquote forms, bounded-exhaustive over all operator stacks of length <= 4 (also broken by a second statement in a body); through the fast and the classic interpreter; non-trivial = template with at least one unquote",
 		Gen:        c21gen,
 		Exec:       c21exec,
 		Exhaustive: func(string) bool { return false },
@@ -671,6 +671,54 @@ var c21fixed = []string{
 	"~quasiquote{~unquote{x0}, y = 1, 2}", "~quasiquote{go ~unquote{call}}", "~quasiquote{defer ~unquote{call}}", "~quasiquote{~unquote{x0}++}",
 }
 
+func c21stacks(emit func(src string)) {
+	opName := []string{"~unquote", "~unquote_splice"}
+	wrapQQ := func(n int, body string) string {
+		for i := 0; i < n; i++ {
+			body = "~quasiquote{" + body + "}"
+		}
+		return body
+	}
+	for n := 1; n <= 4; n++ {
+		for k := 1; k <= n; k++ {
+			for mask := 0; mask < 1<<k; mask++ {
+				// bit i of mask = operator at level i (0 = outermost)
+				inner := opName[(mask>>(k-1))&1]
+				v := "x0"
+				if inner == "~unquote_splice" {
+					v = "l2"
+				}
+				for brk := 0; brk < k; brk++ { // brk = 0: unbroken stack; else extra statement in the body of level brk-1
+					if brk > 0 && n > 3 {
+						continue
+					}
+					for _, lead := range []bool{false, true} {
+						if lead && brk == 0 {
+							continue
+						}
+						s := v
+						for i := k - 1; i >= 0; i-- {
+							if brk > 0 && i == brk-1 {
+								if lead {
+									s = "c; " + s
+								} else {
+									s = s + "; c"
+								}
+							}
+							s = opName[(mask>>i)&1] + "{" + s + "}"
+						}
+						emit(wrapQQ(n, "a; "+s+"; b"))
+						if brk == 0 {
+							emit(wrapQQ(n, "f(a, "+s+", b)"))
+							emit(wrapQQ(n, s))
+						}
+					}
+				}
+			}
+		}
+	}
+}
+
 func c21gen(r *rand.Rand, tier string, emit func(string)) {
 	ir := newQuietInterp()
 	mk := func(src string) string {
@@ -721,6 +769,16 @@ func c21gen(r *rand.Rand, tier string, emit func(string)) {
 			put(e, src)
 		}
 	}
+	// bounded-exhaustive: every stack of 1..4 directly nested ~unquote / ~unquote_splice operators (all 2^k
+	// mixtures) around a variable, as element of a statement list and of a call argument list, below
+	// 1..4 levels of ~quasiquote (stack as long as the depth: evaluated; shorter: one level peeled);
+	// and the same stacks broken by a second statement in the body of one of the operators
+	// (then the operators above the break are not part of the stack)
+	c21stacks(func(src string) {
+		for _, e := range envs {
+			put(e, src)
+		}
+	})
 	for i := 0; i < 500*scale; i++ {
 		g := &c20g{r: r, arity: map[string]int{}, pQuote: []float64{0.1, 0.3}[r.Intn(2)]}
 		g.uqNode = []string{"x0", "x1", "x0", "x1", "st", "n0", "s0", "b0", "bl", "call"}
